@@ -209,6 +209,7 @@ InvSysClean == SysClean(w)
 \* the nonces in circulation for a token never exceed the highest issued one, and no (token, nonce) was made twice
 InvNonces == \A a \in Accts(w) : \A k \in DOMAIN w.acct[a].esdt :
                 w.acct[a].esdt[k].hm => w.acct[a].esdt[k].meta.nonce <= MaxN(h, SubSeq(k, 1, Len(k) - Len(NBHex(w.acct[a].esdt[k].meta.nonce))))
-\* message ids and the id counter are bookkeeping: hidden from the fingerprint
-View == <<[w EXCEPT !.nextId = 0, !.msgs = [i \in 1..Len(w.msgs) |-> [w.msgs[i] EXCEPT !.id = 0]]], h>>
+\* message ids and the id counter are bookkeeping: hidden from the fingerprint (viol stays visible: a state reached by a
+\* violating step is a new state even when the world is unchanged)
+View == <<[w EXCEPT !.nextId = 0, !.msgs = [i \in 1..Len(w.msgs) |-> [w.msgs[i] EXCEPT !.id = 0]]], h, viol>>
 =============================================================================
